@@ -338,6 +338,10 @@ func p2replay(p Property, opt Options, eo episodeOut, v Violation) *Replay {
 
 // reproduces runs the scenario in a fresh process and reports the matching violation.
 func reproduces(p Property, env *Env, sc *scen.Scenario, rule, witness string) (*Violation, *Run) {
+	// a shrunk document must still satisfy the generator's invariants the oracle relies on
+	if wf, ok := p.(interface{ WellFormed(*scen.Scenario) bool }); ok && !wf.WellFormed(sc) {
+		return nil, &Run{}
+	}
 	sc.World.Isolated = true
 	run := env.Exec1(sc)
 	for _, v := range p.Check(sc, run, env) {
